@@ -38,7 +38,7 @@ PROPS = {
     ),
 }
 
-ENGINES = {'e2e': vlib.e2e_engine, 'store': vlib.store_engine, 'atomic': vlib.atomic_engine, 'encrypt': vlib.encrypt_engine, 'swr': vlib.swr_engine, 'conc': vlib.conc_engine, 'bytes': vlib.bytes_engine, 'lateinval': vlib.lateinval_engine}
+ENGINES = {'e2e': vlib.e2e_engine, 'store': vlib.store_engine, 'atomic': vlib.atomic_engine, 'encrypt': vlib.encrypt_engine, 'swr': vlib.swr_engine, 'conc': vlib.conc_engine, 'bytes': vlib.bytes_engine, 'lateinval': vlib.lateinval_engine, 'overlap': vlib.overlap_engine}
 
 
 def _e2e(profiles, monitors, projection, nq=1500, nt=20000, extra=None):
@@ -129,3 +129,9 @@ PROPS['C05']['rule'] = (E2E_RULE + '; plus real HTTP messages over the loopback 
                         'fields named by Connection; on memcache, fscache and encrypted fscache; each case: GET (MISS) then GET (HIT), both compared with the response as net/http delivered it to the cache; '
                         'every stored entry is parsed by the extracted reader and by Go')
 PROPS['C05']['assumptions'] = ['net/http (http.Transport, ReadResponse, DumpResponse) delivers and frames messages as it documents; the reference for a replay is the response as net/http handed it to the cache']
+
+for _p in ('C08', 'C19', 'C20'):
+    PROPS[_p]['engines'] = PROPS[_p]['engines'] + ['overlap']
+    PROPS[_p]['rule'] += ('; plus the experiment TestOverlap (virtual time): requests of the same client while a stale-while-revalidate background validation is in flight '
+                          '(its answer decided by the origin, held, released afterwards): a forced validation that replaces the entry, another variant stored and a later invalidation, '
+                          'another variant served stale')
